@@ -37,6 +37,12 @@ class Server:
             m = F.callee_fn(c)
             if m in rem:
                 resp[m.id] = m
+            elif m is not None and m.impl_of and m.impl_of.get('self_head') and path_matches(m.impl_of['self_head'], 'server::BaseChannel'):
+                # through a private helper of the channel that wraps the table's removal
+                for _, c2 in m.calls():
+                    m2 = F.callee_fn(c2)
+                    if m2 in rem:
+                        resp[m2.id] = m2
         if len(resp) != 1:
             raise CannotDecide('removal used by <BaseChannel as Sink>::start_send: %d' % len(resp))
         self.plain = list(resp.values())[0]
@@ -151,3 +157,42 @@ def guard_always_disarmed(ctx, tag, S):
         done = True
     if not done:
         R.ob(tag, ('InFlightRequest::execute', 'guard disarmed on every path once the Abortable finished'), False, 'execute wraps its work in an Abortable', [ex.loc(ex.d)])
+
+
+def tracked_gate(ctx, tag, S):
+    """<BaseChannel as Sink>::start_send: the response's id is taken out of the in-flight table (directly, or through a private helper of the channel that
+    hands the table's answer back) and the transport write happens only on the hit edge of that removal, with the response it was given"""
+    from .common import result_of, guarded_by_variant, norm_path
+    F, P, R = ctx.F, ctx.P, ctx.run
+    ss = S.start_send
+    plain_kp = S.key_param(S.plain)
+    tsend = [(bb, t) for bb, t in ss.calls() if callee_is(t, 'Sink::start_send') and 'Fuse<' in (t.get('self_ty') or '')]
+    # the transport write may go through an accessor-style helper of the channel
+    rms = []
+    for bb, t in ss.calls():
+        m = F.callee_fn(t)
+        if m is S.plain:
+            rms.append((bb, t, plain_kp))
+        elif m is not None and m.impl_of and m.impl_of.get('self_head') and path_matches(m.impl_of['self_head'], 'server::BaseChannel') and any(F.callee_fn(t2) is S.plain for _, t2 in m.calls()):
+            # which parameter of the helper is the id?
+            kp = None
+            for b2, t2 in m.calls():
+                if F.callee_fn(t2) is S.plain:
+                    for r, p in P.root(P.operand(m, t2['args'][plain_kp - 1], at=b2)):
+                        if r[0] == 'param' and r[1] == m.id:
+                            kp = r[2]
+            if kp is not None:
+                rms.append((bb, t, kp))
+    R.ob(tag, ('<BaseChannel as Sink>::start_send', 'one removal, one transport write'), len(tsend) == 1 and len(rms) == 1,
+         'sending a response untracks the request and writes once', [ss.loc(t) for _, t in tsend] + [ss.loc(t) for _, t, _ in rms] or [ss.loc(ss.d)])
+    if len(tsend) == 1 and len(rms) == 1:
+        (sb, st_), (rb, rt, kp) = tsend[0], rms[0]
+        kr = P.root(P.operand(ss, rt['args'][kp - 1], at=rb))
+        ok = bool(kr) and all(r == ('param', ss.id, 2) and P.fpath(p) == ('request_id',) for r, p in kr)
+        R.ob(tag, ('<BaseChannel as Sink>::start_send', 'untracks the response\'s id'), ok, 'the removal is keyed by response.request_id', [ss.loc(rt)])
+        pred = lambda x: result_of(P, x, ('call', ss.id, rb))
+        R.ob(tag, ('<BaseChannel as Sink>::start_send', 'writes only on the hit edge'), bool(guarded_by_variant(F, P, ss, sb, pred, ['Some', 'Continue'])),
+             'a response reaches the transport only if its request was still tracked (not cancelled, expired or already answered)', [ss.loc(st_)])
+        ir = P.root(P.operand(ss, st_['args'][1], at=sb))
+        R.ob(tag, ('<BaseChannel as Sink>::start_send', 'writes the response it was given'), bool(ir) and all(r == ('param', ss.id, 2) and not norm_path(p) for r, p in ir),
+             'the item written is the response passed in', [ss.loc(st_)])
